@@ -6,6 +6,7 @@ import (
 	"sort"
 	"strings"
 	"testing"
+	"unicode/utf8"
 
 	"github.com/tobgu/qframe"
 	"github.com/tobgu/qframe/config/newqf"
@@ -559,6 +560,14 @@ func TestC08Project(t *testing.T) {
 				dst := rapid.SampledFrom(append(append([]string(nil), names...), "n1", "n2", "", "'q'", "$v", "'q\nq'")).Draw(t, "dst")
 				if src == "nosuchcol" && rapid.Bool().Draw(t, "samedst") {
 					dst = "nosuchcol" // Copy(X, X) with an unknown X is still an unknown source
+				}
+				if src != "nosuchcol" && rapid.IntRange(0, 4).Draw(t, "casedst") == 0 {
+					// a destination that differs from the source in letter case only is another column
+					if up := strings.ToUpper(src); up != src && utf8.ValidString(up) {
+						dst = up
+					} else if lo := strings.ToLower(src); lo != src && utf8.ValidString(lo) {
+						dst = lo
+					}
 				}
 				req = fmt.Sprintf("Copy(%q,%q)", dst, src)
 				run(func() { res = cur.Copy(dst, src) })
